@@ -113,6 +113,7 @@ class LoopMixin:
             k = kinds[name]
             nv = k.fresh('hv_' + name)
             if isinstance(nv, VList):
+                nv = VList(nv.elem, nv.arrs, z3.IntVal(0), nv.n)       # fresh contents: offset 0 w.l.o.g.
                 st.assume(*self.wf(nv, st))
                 if isinstance(v, VListRef):
                     st.lists[v.lid] = nv
@@ -210,7 +211,15 @@ class LoopMixin:
             if name.startswith('@') or '.' in name:
                 continue
             v = st.lookup(name)
-            if v is None or isinstance(v, VListRef):
+            if v is None:
+                continue
+            if isinstance(v, VListRef):
+                l = st.lists[v.lid]
+                if isinstance(kind, LIST) and l.elem != kind.elem:
+                    if l.elem is NONE and not l.arrs and z3.is_int_value(z3.simplify(l.n)) and z3.simplify(l.n).as_long() == 0:
+                        st.lists[v.lid] = self.fresh_list(kind.elem, 'empty', n=z3.IntVal(0))
+                    else:
+                        st.lists[v.lid] = self.coerce_list(st, l, kind.elem)
                 continue
             cv = self.coerce(st, v, kind)
             if cv is not None:
